@@ -150,4 +150,27 @@ def createSymbols : List TTerm → Py (List Sym)
       pure (x :: xs)
 end
 
+/-! ### how clingo presents a ground symbol inside a theory atom (validated against gringo, layer L3) -/
+
+/-- a function symbol, tuple or constant over already converted arguments -/
+def baseTerm (name : String) (ts : List TTerm) : TTerm :=
+  if name == "" then TTerm.tup ts
+  else match ts with
+    | [] => TTerm.sym name
+    | _ => TTerm.fn name ts
+
+mutual
+/-- the theory term clingo hands over for a symbol occurring in a theory atom -/
+def symTerm : Sym → TTerm
+  | .num n => if n ≥ 0 then .num n else .fn "-" [.num (-n)]
+  | .str s => .sym ("\"" ++ s ++ "\"")
+  | .inf => .sym "#inf"
+  | .sup => .sym "#sup"
+  | .fn name args positive =>
+      if positive then baseTerm name (symTerms args) else .fn "-" [baseTerm name (symTerms args)]
+def symTerms : List Sym → List TTerm
+  | [] => []
+  | a :: as => symTerm a :: symTerms as
+end
+
 end TelModel
